@@ -58,5 +58,6 @@ Definition k4_lines (names : list ident) : list string :=
          ++ [ "abort_guard_expr|" +++ a +++ "|" +++ b +++ "|" +++ c +++ "|" +++ ao_s (abort_guard (Build_tctx a "to" b) c) ])
        names
     ++ [ "abort_guard_ident|" +++ a +++ "|" +++ b +++ "|" +++ ao_s (abort_guard (Build_tctx a "to" b) "some_guard_ident");
-         "abort_guard_lit|" +++ a +++ "|" +++ b +++ "|" +++ ao_s (abort_guard (Build_tctx a "to" b) "a_string_literal") ])
+         "abort_guard_lit|" +++ a +++ "|" +++ b +++ "|" +++ ao_s (abort_guard (Build_tctx a "to" b) "a_string_literal");
+         "abort_guard_path|" +++ a +++ "|" +++ b +++ "|" +++ ao_s (abort_guard (Build_tctx a "to" b) "named_by_a_path") ])
     names) names.
